@@ -79,6 +79,59 @@ def array_consts(prog, cs, fn):
     return out
 
 
+def const_operands(f):
+    for b in f.blocks.values():
+        for st in b['stmts']:
+            for o in st['r'].get('ops', []):
+                if o.get('k') == 'const':
+                    yield o
+        t = b['term']
+        if t and t['t'] == 'call':
+            for o in t['args']:
+                if o.get('k') == 'const':
+                    yield o
+
+
+def str_arms(cs, f):
+    """{column text: [eq calls]} for the `str == constant` tests of f (the lowering of `match col { CsvCol::X => .. }`)"""
+    arms = {}
+    for c in f.calls:
+        if c.decl.endswith('PartialEq::eq') and 'str' in c.callee:
+            vals = [v for v in (opval(cs, f, x) for x in c.args) if v]
+            if vals:
+                arms.setdefault(vals[0], []).append(c)
+    return arms
+
+
+def arm_fields(prog, f, c):
+    """CsvTx fields read in the blocks dominated by the true edge of the arm test `c` of f (closures built there included)"""
+    fs = set()
+    sw = f.blocks[c.target]['term'] if c.target in f.blocks else None
+    region = set()
+    if sw and sw['t'] == 'switch':
+        true_t = sw['otherwise'] if any(v == 0 for v, _ in sw['targets']) else None
+        if true_t is not None:
+            region = {b for b in f.blocks if f.dominates(true_t, b)}
+    for b in region:
+        blk = f.blocks[b]
+        for s in blk['stmts']:
+            for pl in f.stmt_sources(s):
+                fs |= {fl for of, fl in mir.place_fields(pl) if of == CSVTX}
+            if s['r']['rv'] == 'agg' and s['r']['kind'].startswith('closure:'):
+                g = prog.by_crate[f.crate].get(s['r']['kind'][8:])
+                if g:
+                    for bb in g.blocks.values():
+                        for s2 in bb['stmts']:
+                            for pl in g.stmt_sources(s2):
+                                fs |= {fl for of, fl in mir.place_fields(pl) if of == CSVTX}
+        t = blk['term']
+        if t and t['t'] == 'call':
+            for x in t['args']:
+                if is_place(x):
+                    fs |= {fl for of, fl in mir.place_fields(x['pl']) if of == CSVTX}
+    return fs
+
+
 def run(prog, rep, tier='quick', config='default'):
     cs = Consts(prog)
     get_cols = prog.fn(COLS + '::get_csv_cols')
@@ -111,52 +164,24 @@ def run(prog, rep, tier='quick', config='default'):
                              % (sorted(diff), sorted(extra)))
 
     # ------------------------------------------------------------------ R11b: writer arms
-    arms = {}
-    for c in writer.calls:
-        if c.decl.endswith('PartialEq::eq') and 'str' in c.callee:
-            vals = [opval(cs, writer, x) for x in c.args]
-            vals = [v for v in vals if v]
-            if vals:
-                arms.setdefault(vals[0], []).append(c)
+    # the function holding the per-column `match col { .. }` of the writer: txs_to_csv_table itself or a helper it reaches in its file
+    wgroup = [writer] + [g for g in prog.callees_closure([writer]).values() if g is not writer and g.file == writer.file and not mir.is_testsupport(g.name)]
+    wgroup += [h for g in list(wgroup) for h in prog.closures_of(g) if h not in wgroup]
+    cell_fn, arms = writer, str_arms(cs, writer)
+    for g in wgroup:
+        ga = str_arms(cs, g)
+        if len(set(ga) & set(expc)) > len(set(arms) & set(expc)):
+            cell_fn, arms = g, ga
     if not rep.anchor('writer arms (str == column constant)', sorted(arms)):
         return
     if set(arms) == set(expc):
-        rep.ok('R11b', 'writer-has-one-arm-per-exported-column', fn=writer.name, detail='%d arms = the %d exported columns' % (len(arms), len(expc)))
+        rep.ok('R11b', 'writer-has-one-arm-per-exported-column', fn=cell_fn.name, detail='%d arms = the %d exported columns' % (len(arms), len(expc)))
     else:
-        rep.violation('R11b', 'writer-has-one-arm-per-exported-column', fn=writer.name, where='%s:%d' % (writer.file, writer.line),
+        rep.violation('R11b', 'writer-has-one-arm-per-exported-column', fn=cell_fn.name, where='%s:%d' % (cell_fn.file, cell_fn.line),
                       detail='exported columns without a writer arm (would hit panic!("Invalid col")): %s; arms for unknown columns: %s'
                              % (sorted(set(expc) - set(arms)), sorted(set(arms) - set(expc))))
     # fields printed by each arm: CsvTx fields read in the blocks dominated by the arm's true edge
-    wfields = {}
-    group = [writer] + prog.closures_of(writer)
-    for col, calls in arms.items():
-        c = calls[0]
-        fs = set()
-        # successor on the true edge of the switch on eq's result
-        sw = writer.blocks[c.target]['term'] if c.target in writer.blocks else None
-        region = set()
-        if sw and sw['t'] == 'switch':
-            true_t = sw['otherwise'] if any(v == 0 for v, _ in sw['targets']) else None
-            if true_t is not None:
-                region = {b for b in writer.blocks if writer.dominates(true_t, b)}
-        for b in region:
-            blk = writer.blocks[b]
-            for s in blk['stmts']:
-                for pl in writer.stmt_sources(s):
-                    fs |= {f for of, f in mir.place_fields(pl) if of == CSVTX}
-                if s['r']['rv'] == 'agg' and s['r']['kind'].startswith('closure:'):
-                    g = prog.by_crate[writer.crate].get(s['r']['kind'][8:])
-                    if g:
-                        for bb in g.blocks.values():
-                            for s2 in bb['stmts']:
-                                for pl in g.stmt_sources(s2):
-                                    fs |= {f for of, f in mir.place_fields(pl) if of == CSVTX}
-            t = blk['term']
-            if t and t['t'] == 'call':
-                for x in t['args']:
-                    if is_place(x):
-                        fs |= {f for of, f in mir.place_fields(x['pl']) if of == CSVTX}
-        wfields[col] = fs
+    wfields = {col: arm_fields(prog, cell_fn, calls[0]) for col, calls in arms.items()}
     # ------------------------------------------------------------------ R11c: reader consumption + reader mapping
     removed = {}
     for c in reader.calls:
@@ -199,34 +224,46 @@ def run(prog, rep, tier='quick', config='default'):
             rep.violation('R11c', 'legacy-date-maps-to-settlement-date', fn=reader.name, detail='deprecated "date" column is read into %s' % sorted(rfields.get('date', [])))
 
     # ------------------------------------------------------------------ R11d: optional columns
-    opt = [x for x in array_consts(prog, cs, writer) if x is not expc]
+    # the optional-column table: an array literal of the writer, or a constant item the writer group refers to
+    opt = []
+    for g in wgroup:
+        opt += [x for x in array_consts(prog, cs, g) if x != expc and set(x) < set(expc)]
+        for o in const_operands(g):
+            item = prog.resolve(o.get('def') or '', 'acb') if re.match(r'^\[&(\'\w+ )?str; \d+\]$', o.get('ty', '')) else None
+            if item is not None:
+                opt += [x for x in array_consts(prog, cs, item) if x != expc and set(x) < set(expc)]
     opt_set = set(opt[0]) if opt else set()
-    inserts = {}
+    # triggers, form 1: `in_use.insert(COL)` under a guard; form 2: an arm `COL => <bool expression>` of a predicate of the writer group
+    triggers = {}
     for c in writer.calls:
         if c.short == 'insert' and re.search(r'HashSet', c.callee) and len(c.args) > 1:
             v = opval(cs, writer, c.args[1])
             if v:
-                inserts.setdefault(v, []).append(c)
+                gf = set()
+                for (sbb, discr, vals, neg) in writer.conditions_at(c.bb):
+                    org = mir.provenance(writer, discr, follow_all_call_args=True)
+                    gf |= {f for of, f in org.fields if of == CSVTX}
+                triggers.setdefault(v, (writer, c, gf))
+    for g in wgroup:
+        if g is cell_fn or g.ty.get(0) != 'bool':
+            continue
+        for col, calls in str_arms(cs, g).items():
+            triggers.setdefault(col, (g, calls[0], arm_fields(prog, g, calls[0])))
     if not opt_set:
         rep.violation('R11d', 'anchor-lost:optional-headers', fn=writer.name, detail='anchor lost: optional header set in txs_to_csv_table')
-    elif set(inserts) != opt_set:
+    elif set(triggers) != opt_set:
         rep.violation('R11d', 'every-optional-column-has-a-trigger', fn=writer.name, where='%s:%d' % (writer.file, writer.line),
                       detail='optional columns never marked "in use" (would be dropped from every file): %s; triggers for non-optional columns: %s'
-                             % (sorted(opt_set - set(inserts)), sorted(set(inserts) - opt_set)))
+                             % (sorted(opt_set - set(triggers)), sorted(set(triggers) - opt_set)))
     else:
         rep.ok('R11d', 'every-optional-column-has-a-trigger', fn=writer.name, detail='%d optional columns, one in-use trigger each' % len(opt_set))
-    for col, cl in sorted(inserts.items()):
-        c = cl[0]
-        gf = set()
-        for (sbb, discr, vals, neg) in writer.conditions_at(c.bb):
-            org = mir.provenance(writer, discr, follow_all_call_args=True)
-            gf |= {f for of, f in org.fields if of == CSVTX}
+    for col, (g, c, gf) in sorted(triggers.items()):
         k = 'trigger-guard|%s' % col
         want = wfields.get(col, set())
         if gf and gf <= want:
-            rep.ok('R11d', k, where=c.where(), fn=writer.name, detail='marked in use when CsvTx.%s is present — the field this column prints' % '/'.join(sorted(gf)))
+            rep.ok('R11d', k, where=c.where(), fn=g.name, detail='marked in use when CsvTx.%s is present — the field this column prints' % '/'.join(sorted(gf)))
         else:
-            rep.violation('R11d', k, where=c.where(), fn=writer.name,
+            rep.violation('R11d', k, where=c.where(), fn=g.name,
                           detail='column "%s" prints CsvTx.%s but is marked in use depending on %s: a populated value can be dropped from the file'
                                  % (col, '/'.join(sorted(want)) or '?', sorted(gf) or 'nothing'))
     # the header filter keeps a column iff it is not optional or is in use
